@@ -22,7 +22,8 @@ RULE = ('case = a fresh directory holding 1-4 include targets and an including c
         'with selector :n for n in 0..separators+2. Part "missing" redirects one include line to a target that '
         'does not exist (unknown name, existing stem with another extension, existing or absent sub-directory, '
         'with selector). Non-trivial = >= 2 include lines or a tab selector; distinct by generating seed.'
-        " The cart lives in a scratch directory, directly in ~/.lexaloffle/pico-8/carts (HOME redirected) or in a game folder below it (include names stay relative to the cart's own directory; same-named decoy files sit in the carts directory).")
+        " The cart lives in a scratch directory, directly in ~/.lexaloffle/pico-8/carts (HOME redirected) or in a game folder below it (include names stay relative to the cart's own directory; same-named decoy files sit in the carts directory)."
+        ' An eighth of the cart targets use 14-18 editor tabs, with selectors at the last tabs and one past them.')
 ASSUMPTIONS = [
     'tab numbering is the one picotool documents (lines_for_tab, game_test.py): tab 0 is the code before the first '
     'line starting with `-->8`, tab n the lines after the n-th and before the (n+1)-th such line; the separator '
